@@ -351,3 +351,77 @@ E('C13', 'cmp-negated', TI, "        if low < high:\n            return low <= i
   "        if not low < high:\n            return not item < low or item < high\n        return not item < low and item < high\n")
 E('C13', 'cmp-split-chain', TI, "        if low <= high:\n            return low <= item <= high\n", "        if low <= high:\n            return low <= item and item <= high\n")
 E('C13', 'cmp-ifexp', TI, "        if low <= high:\n            return low <= item <= high\n        return low <= item or item <= high\n", "        return (low <= item <= high) if low <= high else (low <= item or item <= high)\n")
+
+# ----------------------------------------------------------------------------- C16
+V('C16', 'truth-before-mapping', BLK, """            if isinstance(retval, MutableMapping):
+                for key in retval:
+                    if not isinstance(key, str):
+                        raise TypeError(
+                            f"Event filter {efilter.__name__} returned non-string key {key!r} "
+                            + f"(value {retval[key]})")
+                data = retval   # type: ignore[assignment]
+            elif not retval:
+                source.log_debug(f"Not sending event {self} (rejected by a filter)")
+                return False
+""", """            if not retval:
+                source.log_debug(f"Not sending event {self} (rejected by a filter)")
+                return False
+            if isinstance(retval, MutableMapping):
+                for key in retval:
+                    if not isinstance(key, str):
+                        raise TypeError(
+                            f"Event filter {efilter.__name__} returned non-string key {key!r} "
+                            + f"(value {retval[key]})")
+                data = retval   # type: ignore[assignment]
+""", 'R16.1')
+V('C16', 'veto-continues', BLK, """                source.log_debug(f"Not sending event {self} (rejected by a filter)")
+                return False
+""", """                source.log_debug(f"Not sending event {self} (rejected by a filter)")
+                break
+""", 'R16.1')
+V('C16', 'data-not-rebound', BLK, "                data = retval   # type: ignore[assignment]\n", "                pass\n", 'R16.1')
+VM('C16', 'deliver-original', [(BLK, "        data['source'] = source.name\n        for efilter in self._filters:", "        data['source'] = source.name\n        orig = data\n        for efilter in self._filters:"),
+                              (BLK, "        dest.event(self._etype, **data)\n        return True", "        dest.event(self._etype, **orig)\n        return True")], 'R16.1')
+V('C16', 'reversed-filters', BLK, "        for efilter in self._filters:\n            retval = efilter(data)", "        for efilter in reversed(self._filters):\n            retval = efilter(data)", 'R16.1')
+V('C16', 'edge-urise-from-fall', FIL, "self._urise = bool(u_rise) if u_rise is not None else self._rise", "self._urise = bool(u_rise) if u_rise is not None else self._fall", 'R16.2')
+V('C16', 'edge-prev-not-bool', FIL, "            if (not previous and self._rise) if value else (previous and self._fall):", "            if (not previous and self._rise) if value else (not previous and self._fall):", 'R16.2')
+V('C16', 'edge-undef-swapped', FIL, "            if self._urise if value else self._ufall:", "            if self._ufall if value else self._urise:", 'R16.2')
+V('C16', 'nfu-inverted', FIL, "    return data.get('previous', block.UNDEF) is not block.UNDEF", "    return data.get('previous', None) is not block.UNDEF", 'R16.2')
+V('C16', 'ifoutput-inverted', FIL, "        return data if self._ctrl_blk.output else None", "        return None if self._ctrl_blk.output else data", 'R16.2')
+V('C16', 'notinit-inverted', FIL, "        return None if self._ctrl_blk.is_initialized() else data", "        return data if self._ctrl_blk.is_initialized() else None", 'R16.2')
+V('C16', 'delta-gt', FIL, "abs(self._last - value) >= self._delta", "abs(self._last - value) > self._delta", 'R16.3')
+V('C16', 'delta-last-always', FIL, """        value = data['value']
+        if self._last is block.UNDEF or abs(self._last - value) >= self._delta:
+            self._last = value
+            return True
+        return False""", """        value = data['value']
+        last, self._last = self._last, value
+        if last is block.UNDEF or abs(last - value) >= self._delta:
+            return True
+        return False""", 'R16.3')
+V('C16', 'delta-no-update', FIL, "            self._last = value\n            return True\n", "            if self._last is block.UNDEF:\n                self._last = value\n            return True\n", 'R16.3')
+V('C16', 'add-precedence', FIL, "self._editlist.append(lambda data: {**data, **kwargs})", "self._editlist.append(lambda data: {**kwargs, **data})", 'R16.4c')
+V('C16', 'setdefault-precedence', FIL, "self._editlist.append(lambda data: {**kwargs, **data})", "self._editlist.append(lambda data: {**data, **kwargs})", 'R16.4c')
+V('C16', 'modify-reject-deletes', FIL, "            if replacement is self.REJECT:\n                return None\n", "            if replacement is self.REJECT:\n                del data[key]\n                return data\n", 'R16.4')
+V('C16', 'dual-shared', FIL, "        if instance is None:\n            instance = cls()\n", "        if instance is None:\n            instance = cls._shared = getattr(cls, '_shared', None) or cls()\n", 'R16.4')
+V('C16', 'call-continues', FIL, "            if not isinstance(data, MutableMapping):\n                break\n", "            if data is None:\n                continue\n", 'R16.4')
+VM('C16', 'documented-name-gone', [(FIL, "class NotIfInitialized:", "class IfNotIitialized:"),
+                                   (FIL, "IfNotIitialized = NotIfInitialized\n", ""),
+                                   (FIL, "'NotIfInitialized',\n    'IfNotIitialized']", "'IfNotIitialized']")], 'R16.5')
+E('C16', 'edge-ifstmt', FIL, """            if self._urise if value else self._ufall:
+                return True
+""", """            if value:
+                if self._urise:
+                    return True
+            elif self._ufall:
+                return True
+""")
+E('C16', 'veto-nested', BLK, """            elif not retval:
+                source.log_debug(f"Not sending event {self} (rejected by a filter)")
+                return False
+""", """            else:
+                if not retval:
+                    source.log_debug(f"Not sending event {self} (rejected by a filter)")
+                    return False
+""")
+E('C16', 'delta-le', FIL, "abs(self._last - value) >= self._delta", "self._delta <= abs(value - self._last)")
